@@ -581,3 +581,70 @@ def r_srand_dom(ctx, prog):
             ctx.instance(R, ok, s, 'srand:arg:%s' % fn.name, 'of_rfc5170_srand called with %s, not a seed parameter of %s' %
                          (show(tt.term(s.args[0])), fn.name))
     return sorted(callers)
+
+
+# ------------------------------------------------------------------ R-FPRANGE
+def r_fprange(ctx, prog, step_info=None):
+    """The two numerical claims about the scaling expression, by forward error analysis of the returned expression tree itself
+    (standard model: every IEEE-754 double operation returns the exact result times (1+d), |d| <= u = 2^-53; conversions of 32-bit
+    integers are exact; a product of two integers below 2^53 is exact).  All constants come from the IR."""
+    from fractions import Fraction as Fr
+    R = 'R-FPRANGE'
+    ctx.rule(R, 'forward error analysis of the returned scaling expression: the result is < maxv for every state and every 32-bit maxv, '
+             'and equals the exact floor whenever state*maxv < 2^53', floor=1)
+    f = prog.need_fn('of_rfc5170_rand', R)
+    tt = Terms(f, forward=True)
+    rets = f.rets()
+    ctx.need(len(rets) == 1, R, 'expected a single return')
+    t = tt.term(rets[0].ops[0])
+    ctx.need(t[0] == 'conv' and t[1] == 'fptoui', R, 'returned value is not a double truncated to an integer')
+    u = Fr(1, 2 ** 53)
+    P = None
+
+    def ev(x):
+        """(kind, info): ('int32',) an exactly converted 32-bit integer; ('const', c); ('mul', a, b); ('div', a, b)"""
+        nonlocal P
+        if x[0] == 'conv' and x[1] == 'uitofp':
+            return ('int32', x[2])
+        if x[0] == 'conv' and x[1] in ('fpext',):
+            return ev(x[2])
+        if x[0] == 'fconst':
+            return ('const', Fr(x[1]))
+        if x[0] == 'bin' and x[1] == 'fmul':
+            return ('mul', ev(x[2]), ev(x[3]))
+        if x[0] == 'bin' and x[1] == 'fdiv':
+            return ('div', ev(x[2]), ev(x[3]))
+        raise ValueError(show(x)[:80])
+    try:
+        tree = ev(t[2])
+    except ValueError as e:
+        ctx.broken(R, 'the returned expression contains an operation outside the error model: %s' % e)
+    shape = tree[0] == 'div' and tree[2][0] == 'const' and tree[1][0] == 'mul' and tree[1][1][0] == 'int32' and tree[1][2][0] == 'int32'
+    ctx.need(shape, R, 'the returned expression is not (int * int) / constant: the error analysis below does not apply')
+    P = tree[2][1]
+    ctx.need(P.denominator == 1 and P > 1, R, 'divisor is not a positive integer constant')
+    P = int(P)
+    # the state operand ranges over [1, modulus-1] (R-PRNG-STEP); the analysis needs divisor == modulus
+    mod = (step_info or {}).get('modulus')
+    if mod is not None:
+        ctx.instance(R, mod == P, rets[0], 'fprange:divisor', 'the scaling divides by %d but the state ranges over [1, %d-1]' % (P, mod))
+    smax = P - 1
+    asm = 'double operations are IEEE-754 binary64 with round-to-nearest (relative error at most 2^-53 per operation)'
+    if asm not in ctx.assumptions:
+        ctx.assumptions.append(asm)
+    # claim A: computed <= (s*maxv/P) * (1+u)^2 <= maxv * (P-1)/P * (1+u)^2 < maxv
+    okA = Fr(smax, P) * (1 + u) ** 2 < 1
+    ctx.instance(R, okA, rets[0], 'fprange:below-maxv',
+                 'with two roundings the computed quotient can reach maxv for the largest state: the result is not always in 0..maxv-1')
+    # claim B: x = s*maxv < 2^53 is exact; q = x/P is rounded once; |error| <= half an ulp at the magnitude of q; a non-integer
+    # quotient is at least 1/P below the next integer, an integer quotient is exact: the floor is preserved iff half-ulp < 1/P
+    qmax = Fr(2 ** 53, P)
+    e = 0
+    while Fr(2) ** (e + 1) <= qmax:
+        e += 1
+    half_ulp = Fr(2) ** (e - 52) / 2
+    okB = half_ulp < Fr(1, P)
+    ctx.instance(R, okB, rets[0], 'fprange:exact-floor',
+                 'for state*maxv < 2^53 the rounding error of the division (%s) is not below the distance 1/%d of a non-integer quotient '
+                 'to the next integer: truncation can differ from the exact floor' % (half_ulp, P))
+    return {'divisor': P, 'unit_roundoff': '2^-53', 'bound_A': float(Fr(smax, P) * (1 + u) ** 2), 'half_ulp_B': float(half_ulp), 'gap_B': float(Fr(1, P))}
